@@ -22,7 +22,7 @@ RULE = ("one case = one generated valid world (validity model) x one option tupl
 
 
 PROBES = ["stale_report_replaced", "mkdir_p_output", "single_entry_schedule", "asset_income_only", "asset_fully_sold", "has_lost", "in_crypto_fee", "empty_window",
-          "midyear_from", "large_table", "neg_balances_allowed", "equal_instants_in_world", "tie_transfer_funds_disposal", "tie_buy_and_sell"]
+          "midyear_from", "large_table", "skewed_large_world", "expense_fractions_over_120", "neg_balances_allowed", "equal_instants_in_world", "tie_transfer_funds_disposal", "tie_buy_and_sell"]
 
 
 def make_case(seed, facts, index=0):
@@ -45,6 +45,30 @@ def make_case(seed, facts, index=0):
     if rng.random() < 0.04:
         swarm["n_rows"] = rng.choice([60, 120, 200])
         swarm["n_assets"] = 1
+    if rng.random() < 0.05:
+        # large and skewed: many rows concentrated on the transaction types that share one sheet / one summary line of a report
+        # (template row budgets, per-type tables and per-year lists are sized per type group, not per input)
+        swarm["n_rows"] = rng.choice([150, 300, 450])
+        swarm["n_assets"] = rng.choice([1, 1, 2])
+        swarm["shapes"] = False
+        kind = rng.choice(["expenses", "expenses", "sales", "gifts", "donations", "income", "one_income", "transfers", "buys"])
+        swarm["skew"] = kind
+        if kind == "expenses":
+            swarm["out_focus"], swarm["mix"] = rng.choice([["FEE"], ["LOST"], ["FEE", "LOST"]]), (0.25, 0.92)
+        elif kind == "sales":
+            swarm["out_focus"], swarm["mix"] = ["SELL"], (0.3, 0.97)
+        elif kind == "gifts":
+            swarm["out_focus"], swarm["mix"] = ["GIFT"], (0.3, 0.97)
+        elif kind == "donations":
+            swarm["out_focus"], swarm["mix"] = ["DONATE"], (0.3, 0.97)
+        elif kind == "income":
+            swarm["in_focus"], swarm["mix"] = list(W.EARN_TYPES), (0.8, 0.95)
+        elif kind == "one_income":
+            swarm["in_focus"], swarm["mix"] = [rng.choice(W.EARN_TYPES)], (0.85, 0.97)
+        elif kind == "transfers":
+            swarm["mix"] = (0.2, 0.3)
+        else:
+            swarm["in_focus"], swarm["mix"] = ["BUY"], (0.9, 0.97)
     country = rng.choice(tree.COUNTRIES)
     neg = rng.random() < 0.12
     world = None
@@ -233,6 +257,11 @@ def _probes(case, res):
                     p["probe:tie_buy_and_sell"] = 1
     if sum(1 for _ in W.all_rows(world)) >= 60:
         p["probe:large_table"] = 1
+    if case["swarm"].get("skew"):
+        p["probe:skewed_large_world"] = 1
+        p["skew:" + case["swarm"]["skew"]] = 1
+    if sum(1 for _, t, r in W.all_rows(world) if t == "OUT" and r["transaction_type"] in ("FEE", "LOST")) > 120:
+        p["probe:expense_fractions_over_120"] = 1
     if opts.get("neg"):
         p["probe:neg_balances_allowed"] = 1
     return p
